@@ -16,7 +16,7 @@ import z3
 from torch import nn
 
 from ..par import run_tasks
-from ..report import CONCRETE, INCONCLUSIVE, Report, describe_function
+from ..report import CONCRETE, INCONCLUSIVE, Report, describe_function, lazy
 from ..sym.runner import discharge
 from ..sym.scalar import Ctx, SInt, SReal, _sreal, approx
 from ..sym.tensor import EINOPS, LC, TF, HarnessError, Session, STensor, unify
@@ -766,7 +766,7 @@ def task_initial_state() -> List[Dict[str, Any]]:
     else:
         recs.append({"type": "obligation", "name": "initial-state: N(0,1) initialiser, zero biases, unit gains, expected tags on every parameter", "status": CONCRETE,
                      "queries": 0, "kind": "concrete", "detail": f"{len(allm)} module instances; weight initialisers: {how}"})
-    recs.append({"type": "function", "functions": [describe_function(uu.Linear.reset_parameters), describe_function(uu.Conv1d.reset_parameters)]})
+    recs.append({"type": "function", "functions": [describe_function(lazy(lambda: uu.Linear.reset_parameters)), describe_function(lazy(lambda: uu.Conv1d.reset_parameters))]})
     return recs
 
 
@@ -894,7 +894,7 @@ def run(rep: Report, only: str = "") -> None:
     if only:
         tasks = [t for t in tasks if only in repr(t[1])]
     rep.extend(run_tasks(tasks))
-    rep.functions = [describe_function(getattr(um, n).forward) for n in SPECS] + [describe_function(um.DepthSequential.__init__), describe_function(um.DepthModuleList.__init__)]
+    rep.functions = [describe_function(getattr(getattr(um, n, None), "forward", None)) for n in SPECS] + [describe_function(lazy(lambda: um.DepthSequential.__init__)), describe_function(lazy(lambda: um.DepthModuleList.__init__))]
     rep.bounds = {"forward": "real forward() of 14 module classes on a proxy self: parameters of symbolic shape (dims <= 2^20), numeric options symbolic (mult, p, eps, stride 1-8, "
                              "padding 0-8, dilation 1-4, groups 1-4, kernel 1-9, padding_idx, max_norm, norm_type, ignore_index, taus), data universally quantified",
                   "constructor": "run concretely once per discrete option combination (constraint names incl. None/default, approximate, bias, affine, padding_mode, is_causal, reduction, "
